@@ -194,9 +194,37 @@ def r04_6(ctx):
     return r
 
 
+def r04_7(ctx):
+    r = Rule("R04.7", "v-html / v-text accept the array form: `v-html={[x]}` binds x (the first element), like every other directive value",
+             "without the unwrapping `innerHTML` receives the array")
+    for role in ("v_html_parser", "v_text_parser"):
+        b = C.role(ctx, role)
+        if b is None:
+            r.ob("%s found" % role, None, "-", "role not resolved (shared helper?): not decided")
+            continue
+        r.saw(b["path"])
+        from .hirflow import HirIndex
+        idx = HirIndex(b)
+        # a value leaf that is (a clone of) a binding introduced by a pattern over `<expr>.as_array() ... .elems.first()` / `elems.get(0)` / `[first, ..]`
+        ok = False
+        for n in walk(b["body"]):
+            lo = local_of(strip_transparent(n)) if n.get("k") in ("Path", "MethodCall", "Unary", "Ref") else None
+            if lo is None:
+                continue
+            bnd = idx.binding.get(lo[1])
+            if not bnd or bnd.get("init") is None:
+                continue
+            t = expr_str(bnd["init"])
+            if ("as_array()" in t or "Array(" in t) and ("elems.first()" in t or "elems.get(0)" in t or "elems[0]" in t or "elems.as_slice()" in t) and bnd.get("path"):
+                ok = True
+        r.ob("%s unwraps a one-element array value" % role, ok, C.mloc(b, b),
+             "a value is bound through <value>.as_array()….elems.first()" if ok else "no use of a binding taken from the array's first element: `v-html={[x]}` passes the array itself")
+    return r
+
+
 def rules(ctx):
     from ..engine import only
-    return [r04_1, r04_2, r04_4, r04_5, r04_6,
+    return [r04_1, r04_2, r04_4, r04_5, r04_6, r04_7,
             only(c07.r07_6, lambda k: "directive::" in k or k.startswith("JSX attribute literal"), "string values of v-html / v-text"),
             only(c11.r11_1, lambda k: k.startswith("parse_"), "value / argument of a parsed directive come from distinct parts of the attribute value")]
 
